@@ -3,6 +3,7 @@ package hx
 import (
 	"fmt"
 	"math"
+	"strings"
 	"os"
 	"runtime/debug"
 	"sort"
@@ -33,6 +34,44 @@ type Sess struct {
 	Panics int
 	// OnHang runs before the process exits after a detected deadlock.
 	OnHang func()
+	// Proto, when set, receives the protocol-grain events of every Commit
+	// (CommitTrace.tla): begin / create / write / sync / end.
+	Proto      *Recorder
+	protoIn    bool // inside a Commit call
+	protoMuted bool // inside Merge (its internal commits are not bracketed)
+}
+
+// ProtoEpoch tells the protocol trace that the files start a new epoch.
+func (s *Sess) ProtoEpoch(fresh bool) {
+	if s.Proto != nil {
+		s.Proto.Emit(Ev{"ev": "epoch", "sync": s.Opt.SyncEnable, "fresh": fresh})
+	}
+}
+
+// ProtoMut is the FSObs.OnMut callback.
+func (s *Sess) ProtoMut(op, rel string, off int64, data []byte, written int, injected bool) {
+	if s.Proto == nil || !s.protoIn || s.protoMuted || !strings.HasSuffix(rel, ".dat") || strings.Contains(rel, "/") {
+		return
+	}
+	switch op {
+	case "open":
+		// a data file is created by open + truncate: it counts as created
+		// once both have succeeded
+		if injected {
+			s.Proto.Emit(Ev{"ev": "createfail", "file": rel})
+		}
+	case "truncate":
+		if injected {
+			s.Proto.Emit(Ev{"ev": "createfail", "file": rel})
+		} else {
+			s.Proto.Emit(Ev{"ev": "create", "file": rel})
+		}
+	case "write":
+		committed := len(data) >= 32 && data[30] == 1 && data[31] == 0
+		s.Proto.Emit(Ev{"ev": "write", "file": rel, "off": int(off), "len": written, "committed": committed, "injected": injected})
+	case "sync":
+		s.Proto.Emit(Ev{"ev": "sync", "file": rel, "injected": injected})
+	}
 }
 
 // HangAfter is the watchdog period for one library call.
@@ -94,6 +133,7 @@ func (s *Sess) Open() error {
 			e["msg"] = err.Error()
 		}
 	})
+	s.ProtoEpoch(false)
 	return err
 }
 
@@ -136,6 +176,8 @@ func (s *Sess) MergeObs(tmp string) error {
 	e := Ev{"op": "merge"}
 	empty := Ev{"kv": []Ev{}, "ls": []Ev{}, "st": []Ev{}, "zs": []Ev{}}
 	e["o"], e["so"], e["serr"], e["operr"] = empty, empty, false, false
+	s.protoMuted = true
+	defer func() { s.protoMuted = false; s.ProtoEpoch(false) }()
 	s.guard(e, func() {
 		err = s.DB.Merge()
 		e["err"] = err != nil
@@ -193,6 +235,18 @@ func (t *Tx) Commit(nwOnFail func() int) error {
 	if t.Fin {
 		e["fin"] = true
 	}
+	if t.S.Proto != nil && !t.Fin && t.W {
+		if n := nutsdb.VerifPendingLen(t.T); n > 0 {
+			t.S.Proto.Emit(Ev{"ev": "begin", "n": n, "id": t.ID})
+			t.S.protoIn = true
+		}
+	}
+	defer func() {
+		if t.S.protoIn {
+			t.S.protoIn = false
+			t.S.Proto.Emit(Ev{"ev": "end", "err": err != nil})
+		}
+	}()
 	t.S.guard(e, func() {
 		err = t.T.Commit()
 		e["err"] = err != nil
